@@ -170,8 +170,11 @@ func calculateExecutionType(
 		return unifiedT
 
 	case base.OPTIONAL_UNIFY:
-		m.evaluatedObjectT.AppendVariant(*base.MakeNil())
-		unifiedT := base.MakeUnifiedT(m.evaluatedObjectT.GetVariants())
+		// "an element or nil": the nil belongs to the result, the receiver keeps
+		// its element types
+		receiverT := m.evaluatedObjectT.DeepCopy()
+		receiverT.AppendVariant(*base.MakeNil())
+		unifiedT := base.MakeUnifiedT(receiverT.GetVariants())
 
 		return unifiedT
 
